@@ -14,7 +14,7 @@ META = {
                                'kind-dtime', 'kind-dtf', 'kind-status', 'kind-mnum', 'kind-dim', 'kind-lname', 'kind-objref',
                                'kind-ref:channel', 'kind-ref:zone', 'default-FIELD-NAME', 'default-LONG-NAME',
                                'codec-contract-evals', 'reassign-after-write', 'plain-second-write', 'route-later-set_attributes',
-                               'origin-file-set-number-left-to-library']},
+                               'origin-file-set-number-left-to-library', 'inplace-edit-then-rewrite']},
     'assumptions': ['vf/schema.py states the attribute labels / value kinds of the 22 object types independently of the code',
                     'date-times compare within 1 ms of the same UTC instant; numbers by numeric value in the decoded code'],
 }
